@@ -134,6 +134,12 @@ def converters(m):
         "html-table-url": lambda: m.create_markdown(plugins=["table", "url"]),
         "html-table-url-noescape": lambda: m.create_markdown(escape=False, plugins=["table", "url"]),
         "mistune.html-equivalent": lambda: m.create_markdown(escape=False, plugins=["strikethrough", "footnotes", "table", "speedup"]),
+        # the same plugins in another order are another configuration (speedup looks at what is registered before it; abbr and
+        # def_list insert themselves before rules that the other may or may not have added yet)
+        "html-url-speedup": lambda: m.create_markdown(plugins=["url", "speedup"]),
+        "html-speedup-url": lambda: m.create_markdown(plugins=["speedup", "url"]),
+        "html-abbr-deflist": lambda: m.create_markdown(plugins=["abbr", "def_list"]),
+        "html-deflist-abbr": lambda: m.create_markdown(plugins=["def_list", "abbr"]),
         # renderer options that are collections: every conversion must see the whole collection
         "html-allow-list": lambda: m.create_markdown(renderer=m.HTMLRenderer(allow_harmful_protocols=["data:", "file:"]), plugins=["url"]),
         "html-allow-tuple": lambda: m.create_markdown(renderer=m.HTMLRenderer(escape=False, allow_harmful_protocols=("data:text/", "vbscript:"))),
@@ -151,6 +157,8 @@ STATEFUL = [
 ]
 
 
+ORDER_DOCS = ["see https://example.com/page now\n", "*[W3C]: World Wide Web\n\nthe W3C\n", "W3C\n: the *consortium* http://w3.org\n\n*[W3C]: World\n", "term\n*[K]: v\n: def K\n",
+              "plain\n"]
 LINK_DOCS = ["[a](/plain) then [d](data:text/plain,x)\n", "[f](file:///etc/hosts) ![i](data:image/png;base64,AA==)\n", "<data:text/html,hi> and [j](javascript:x)\n",
              "[r]\n\n[r]: data:text/csv,1 'T'\n", "![p](file:/p.png) [v](vbscript:q) [D](DATA:text/plain,y)\n", "plain text only\n", "[k](https://e.x/) [d2](data:,z)\n"]
 
@@ -327,6 +335,20 @@ def oracle(ctx, extra):
                     break
                 # the plugins argument of the shortcut is any iterable: a list, a tuple, a one-shot generator, in any order of calls
                 # the plugins argument of the shortcut is any iterable: lists and tuples under one cache key, one-shot iterables under another
+                # the same set of plugins listed in another order is another converter
+                for cfgname, order in (("html-url-speedup", ["url", "speedup"]), ("html-speedup-url", ["speedup", "url"]), ("html-abbr-deflist", ["abbr", "def_list"]),
+                                       ("html-deflist-abbr", ["def_list", "abbr"]), ("html-speedup-url", ("speedup", "url")), ("html-url-speedup", ["url", "speedup"])):
+                    for d4 in (d, ORDER_DOCS[shared % len(ORDER_DOCS)]):
+                        w4 = pristine().ref(cfgname, d4)
+                        try:
+                            g4 = m.markdown(d4, plugins=order)
+                        except Exception as e:  # noqa
+                            g4 = "EXC:%s" % type(e).__name__
+                        shared += 1
+                        if g4 != w4:
+                            fails.append({"input": {"config": "mistune.markdown(plugins=%r)" % (order,), "docs": docs, "doc": d4}, "kind": "shared-converter-history",
+                                          "expected": [w4[:600]], "got": [g4[:600]]})
+                            break
                 for cfgname, esc, forms in (("html-table-url", True, [lambda: ["table", "url"], lambda: ("table", "url")]),
                                             ("html-table-url-noescape", False, [lambda: (p for p in ["table", "url"]), lambda: iter(["table", "url"]), lambda: ["table", "url"]])):
                     w3 = pristine().ref(cfgname, d)
